@@ -20,7 +20,8 @@ RULE = (
     "named copies of the forest; three spy typecheckers and None; observed: which modules' functions are "
     "instrumented and which spy decorated them, plus ill-typed calls; exhaustive should-instrument table "
     "over all (hook-name set of size <=2, module) pairs of the forest; the pytest option and the IPython "
-    "magic in subprocesses (thorough); non-trivial = the history installs >=1 hook and imports a look-alike "
+    "magic in subprocesses (thorough); fault histories with bytecode caching on (a hooked module with a syntax error is tried, "
+    "the hook is removed, a module whose tagged bytecode is on disk is imported un-hooked); non-trivial = the history installs >=1 hook and imports a look-alike "
     "or an un-hooked neighbour or imports after uninstall; distinct by history"
 )
 TRUSTED = [
@@ -167,6 +168,55 @@ def model_history(drv, ops):
     return {m: k for m, k in w}
 
 
+def fault_histories(out, root, spies, seed):
+    """a hooked module that fails to load (syntax error, caught by the importer) must not change what later imports get:
+    bytecode caching is on, a module was loaded hooked before (its tagged bytecode is on disk), a broken hooked module is
+    tried, the hook goes away, and the module is imported again by a fresh, un-hooked import"""
+    old = sys.dont_write_bytecode
+    sys.dont_write_bytecode = False
+    try:
+        for k, (checker, how) in enumerate(itertools.product(["spy_a.check", None], ["uninstall", "with"])):
+            prefix = f"h{seed}_fault{k}_"
+            write_forest(root, prefix)
+            with open(os.path.join(root, prefix + "broken.py"), "w") as fh:
+                fh.write("def f(x: int) -> int:\n    return x +\n")
+            importlib.invalidate_caches()
+            h = jaxtyping.install_import_hook([prefix + "foo"], checker)
+            first = importlib.import_module(prefix + "foo.bar")
+            h.uninstall()
+            hooked_first = hasattr(first.f, "__wrapped__")
+            for m in [m for m in sys.modules if m.startswith(prefix)]:
+                del sys.modules[m]
+            raised = None
+            if how == "uninstall":
+                h = jaxtyping.install_import_hook([prefix + "broken"], checker)
+                try:
+                    importlib.import_module(prefix + "broken")
+                except SyntaxError:
+                    raised = "SyntaxError"
+                finally:
+                    h.uninstall()
+            else:
+                try:
+                    with jaxtyping.install_import_hook([prefix + "broken"], checker):
+                        importlib.import_module(prefix + "broken")
+                except SyntaxError:
+                    raised = "SyntaxError"
+            again = importlib.import_module(prefix + "foo.bar")
+            other = importlib.import_module(prefix + "other")
+            out.case(("fault", checker, how), True, sample={"checker": checker, "exit": how, "first_load_instrumented": hooked_first, "broken_import": raised})
+            bad = [m.__name__ for m in (again, other) if hasattr(m.f, "__wrapped__")]
+            if not hooked_first or raised != "SyntaxError":
+                out.model_diff(f"fault-setup:{checker}:{how}", f"the set-up did not behave as planned: first load instrumented={hooked_first}, broken import raised {raised}",
+                               {"checker": checker, "how": how})
+            if bad:
+                out.violation(f"after-fault:{checker}:{how}", f"after a hooked module failed to load and the hook was removed ({how}), the un-hooked imports of {bad} got instrumented code",
+                              {"history": ["hooked import of foo.bar (bytecode cached)", "forget foo.bar", f"hook broken ({how})", "import broken -> SyntaxError", "hook removed",
+                                           "import foo.bar", "import other"], "checker": checker, "instrumented": bad})
+    finally:
+        sys.dont_write_bytecode = old
+
+
 def run(tier, seed, out, drv, facts):
     rng = Rng(seed, "C11")
     thorough = tier == "thorough"
@@ -246,6 +296,7 @@ def run(tier, seed, out, drv, facts):
                 out.case(("real", mod.__name__), True)
                 if raised != should:
                     out.violation(f"real-checker:{mod.__name__.split('_', 1)[-1]}", f"ill-typed call into {mod.__name__} {'raised' if raised else 'did not raise'} TypeCheckError", {"module": mod.__name__})
+            fault_histories(out, root, spies, seed)
             if thorough:
                 subprocess_routes(out, root, seed)
         finally:
